@@ -4,7 +4,7 @@ patch=$1; seed=$2; n=$3; secs=$4
 cd /repo && git diff --quiet || { echo dirty; exit 2; }
 [ -n "$patch" ] && [ "$patch" != "-" ] && { git apply $patch || exit 2; }
 cd /verif/sim && RUSTC_WRAPPER=/verif/tools/rustc_mc_wrapper.sh CARGO_NET_OFFLINE=true cargo +nightly build --release --offline --target-dir /verif/target/mc 2>&1 | grep -E "^error|Finished" | head -3
-rm -rf /tmp/mcr; for sh in $(seq 0 $((n-1))); do timeout 600 /verif/target/mc/release/pp-sim sched --focus c20 --seed $seed --shard $sh --of $n --runs 100000 --secs $secs --out /tmp/mc_$sh.json --replay-dir /tmp/mcr > /tmp/mc_$sh.log 2>&1 & done; wait
+rm -rf /tmp/mcr /tmp/mc_*.json; for sh in $(seq 0 $((n-1))); do timeout 600 /verif/target/mc/release/pp-sim sched --focus c20 --seed $seed --shard $sh --of $n --runs 100000 --secs $secs --out /tmp/mc_$sh.json --replay-dir /tmp/mcr > /tmp/mc_$sh.log 2>&1 & done; wait
 git -C /repo checkout -- .
 for sh in $(seq 0 $((n-1))); do python3 - <<P
 import json
